@@ -236,6 +236,10 @@ def zeros_like(a, dtype=None, order = 'C'):
     """
     if dtype is None:
         dtype = a
+    elif isinstance(a, UTPM) and isinstance(dtype, (type, str, numpy.dtype)):
+        # numpy.zeros_like(a, dtype=...): still a polynomial like a, with
+        # coefficients of that dtype
+        return UTPM(numpy.zeros(a.data.shape, dtype=dtype))
     return zeros( a.shape, dtype=dtype, order = order)
 zeros_like.__doc__ += numpy.zeros_like.__doc__
 
@@ -246,6 +250,10 @@ def ones_like(a, dtype=None, order = 'C'):
     """
     if dtype is None:
         dtype = a
+    elif isinstance(a, UTPM) and isinstance(dtype, (type, str, numpy.dtype)):
+        retval = UTPM(numpy.zeros(a.data.shape, dtype=dtype))
+        retval.data[0,...] = 1
+        return retval
     return ones( a.shape, dtype=dtype, order = order)
 ones_like.__doc__ += numpy.ones_like.__doc__
 
